@@ -24,10 +24,10 @@
     R <v>                      v.toReversed()
     T <v> <cmp>                v.toSorted(cmp)
     w <v> <ia> <va>            v.with(index, value)
-    t <v> <bits|-> <k!b,…|_>   v.filter(cb): cb(k) truthy iff bit k is 1; call k detaches
+    t <v> <bits|-> <k!b,…|_> [<sp>]   v.filter(cb): cb(k) truthy iff bit k is 1; call k detaches; optional species
     M <v> <sp> <va>*           v.map(cb): call k returns value k (`x…@b` detaches in the callback body, `x…!b` in valueOf)
     O <of|from|fromMap> <kind|viewid[!b,…]> <va>*   %TypedArray%.of/from applied to a built-in or user constructor
-    A <b> <ia> <ia>            buffer.slice(start, end)  (ArrayBuffer.prototype.slice)
+    A <b> <ia> <ia> [<bufid>[!b,…]]   buffer.slice(start, end); optional species constructor returning an existing buffer
 
     Q <indexOf|lastIndexOf|includes> <v> <va> <ia>   search (explicit fromIndex or `_`)
     k <v> <ia>                 v.at(index)
@@ -139,10 +139,17 @@ def parseOp (ws : List String) : Option Op :=
       | none => none
   | ["t", v, bits, d] => do
       let keep := if bits == "-" then [] else bits.toList.map (· == '1')
-      if d == "_" then pure (.filter (← v.toNat?) keep 0 [])
+      if d == "_" then pure (.filter (← v.toNat?) keep 0 [] none)
       else
         let (h, det) := splitBang d
-        pure (.filter (← v.toNat?) keep (← h.toNat?) det)
+        pure (.filter (← v.toNat?) keep (← h.toNat?) det none)
+  | ["t", v, bits, d, sp] => do
+      let keep := if bits == "-" then [] else bits.toList.map (· == '1')
+      let sp ← parseSpecies sp
+      if d == "_" then pure (.filter (← v.toNat?) keep 0 [] sp)
+      else
+        let (h, det) := splitBang d
+        pure (.filter (← v.toNat?) keep (← h.toNat?) det sp)
   | "M" :: v :: sp :: vals => do
       let vs ← vals.mapM parseVArg
       pure (.map (← v.toNat?) (← parseSpecies sp) vs)
@@ -164,13 +171,20 @@ def parseOp (ws : List String) : Option Op :=
       | some i => pure (.at_ (← v.toNat?) i)
       | none => none
   | ["e", m, v, d] => do
+      if m == "values" || m == "entries" then
+        if d == "_" then pure (.iterate (← v.toNat?) 1000000 [])
+        else
+          let (h, det) := splitBang d
+          pure (.iterate (← v.toNat?) (← h.toNat?) det)
+      else
       let bwd := m == "findLast" || m == "findLastIndex" || m == "reduceRight"
       if d == "_" then pure (.visit (← v.toNat?) bwd 1000000 [])
       else
         let (h, det) := splitBang d
         pure (.visit (← v.toNat?) bwd (← h.toNat?) det)
   | ["J", m, v, d] => do pure (.join (← v.toNat?) (if d == "_" then [] else parseDets d) (m == "toLocaleString"))
-  | ["A", b, st, fi] => do pure (.abSlice (← b.toNat?) (← parseIArg st) (← parseIArg fi))
+  | ["A", b, st, fi] => do pure (.abSlice (← b.toNat?) (← parseIArg st) (← parseIArg fi) none)
+  | ["A", b, st, fi, sp] => do pure (.abSlice (← b.toNat?) (← parseIArg st) (← parseIArg fi) (← parseSpecies sp))
   | ["g", v, i] => do pure (.get (← v.toNat?) (← parseInt? i))
   | ["p", v, i, a] => do pure (.put (← v.toNat?) (← parseInt? i) (← parseVArg a))
   | ["f", v, a, st, fi] => do pure (.fill (← v.toNat?) (← parseVArg a) (← parseIArg st) (← parseIArg fi))
